@@ -47,7 +47,25 @@ def bounds(tier):
             'S': 5 if tier == 'quick' else 9}
 
 
-def two_runs(vec, st, sc, ms, oracle, V, S, norm_fresh=True):
+class _Clock:
+    """time.time() for the strategy modules: advances by 1 per call plus a
+    perturbation chosen by the decider (how long the command / the machine
+    took)."""
+
+    def __init__(self, decider):
+        self.d = decider
+        self.t = 1000.0
+
+    def time(self):
+        self.t += 1.0 + (7.0 if self.d.bit() else 0.0)
+        return self.t
+
+    def __getattr__(self, name):
+        import time
+        return getattr(time, name)
+
+
+def two_runs(vec, st, sc, ms, oracle, V, S, norm_fresh=True, clock=False):
     reserved = V if oracle.startswith('hash') else 0
     outs = []
     read = set()
@@ -63,8 +81,28 @@ def two_runs(vec, st, sc, ms, oracle, V, S, norm_fresh=True):
         env = SC.setup(d, st, 1, V, sc, ms, oracle=oracle, maxwrites=40,
                        norm_fresh=norm_fresh)
         d.quiet_sched = quiet
-        if quiet:
-            env.mp.d = _Quiet()
+        if quiet or clock:
+            env.mp.d = _Quiet()     # clock runs: only the clock is perturbed
+        restore_clock = None
+        if clock:
+            # statistics as with -v (mutator run times are recorded) and a
+            # clock whose readings are perturbed in the second run
+            import logging
+            from ddsmt import strategy_hierarchical, strategy_ddmin
+            lg = logging.getLogger()
+            old_level = lg.level
+            flt = (lambda record: False)
+            lg.addFilter(flt)
+            lg.setLevel(logging.INFO)
+            ck = _Clock(_Quiet() if quiet else d)
+            old_t = (strategy_hierarchical.time, strategy_ddmin.time)
+            strategy_hierarchical.time = ck
+            strategy_ddmin.time = ck
+
+            def restore_clock():
+                strategy_hierarchical.time, strategy_ddmin.time = old_t
+                lg.setLevel(old_level)
+                lg.removeFilter(flt)
         try:
             try:
                 final = SC.run_strategy(env, st)
@@ -76,6 +114,8 @@ def two_runs(vec, st, sc, ms, oracle, V, S, norm_fresh=True):
                 outs.append('runaway')
         finally:
             env.restore()
+            if restore_clock:
+                restore_clock()
         read |= d.read
     if 'runaway' in outs:
         return 'skip', read
@@ -97,13 +137,15 @@ class _Quiet:
         return 0
 
 
-def make_run(st, sc, ms, oracle, tier):
+def make_run(st, sc, ms, oracle, tier, clock=False):
     b = bounds(tier)
     V = len(SC.KEYS[sc]) if oracle == 'req' else b['V']
-    S = b['S']
+    S = b['S'] + (1 if clock else 0)
+    if clock and oracle != 'req':
+        V = V - 1
 
     def once(vec):
-        return two_runs(vec, st, sc, ms, oracle, V, S)
+        return two_runs(vec, st, sc, ms, oracle, V, S, clock=clock)
 
     def run():
         from vlib.engine import explore_choices
@@ -201,6 +243,27 @@ def run_hashseed(tier):
 def partitions(tier):
     parts = [{'name': 'hashseed', 'kind': 'native',
               'run': (lambda: run_hashseed(tier)), 'budget_s': 600}]
+    from harness import c10
+    for cc in (False, True):
+        # the default time limit leaves the documented slack
+        # (1.5 x (golden run time + 1 s)): small delays of the command do not
+        # change verdicts
+        parts.append({'name': f'slack_cc{int(cc)}',
+                      'fn': c10.make_golden(1, cc, False),
+                      'budget_s': 170 if tier == 'quick' else 850,
+                      'bounds': {'golden_run_time': 'symbolic real'}})
+    for (st, sc, ms) in [('hierarchical', 'a', 'core'),
+                         ('hierarchical', 'c', 'erase'),
+                         ('hybrid', 'b', 'mix'),
+                         ('hierarchical', 'g', 'bvbool')]:
+        for oracle in ('hash0', 'hash1'):
+            parts.append({'name': f'clock_{st}_{sc}_{ms}_{oracle}',
+                          'kind': 'choices',
+                          'run': make_run(st, sc, ms, oracle, tier, True),
+                          'budget_s': 170 if tier == 'quick' else 850,
+                          'bounds': {'strategy': st, 'script': sc,
+                                     'mutators': ms, 'oracle': oracle,
+                                     'clock': 'perturbed', **bounds(tier)}})
     for (st, sc, ms) in CONFIGS:
         for oracle in ('hash0', 'hash1', 'req'):
             parts.append({'name': f'{st}_{sc}_{ms}_{oracle}',
@@ -218,16 +281,25 @@ def replay(part, cex):
     if part == 'hashseed':
         r = run_hashseed(os.environ.get('VERIF_TIER_REPLAY', 'quick'))
         return r['exc']['msg'] if r.get('exc') else None
+    if part.startswith('slack_'):
+        from harness import c10
+        return c10.replay('golden_' + part[6:] + '_gto0', cex)
     raw = part.startswith('raw_')
     if raw:
         part = part[4:]
+    clock = part.startswith('clock_')
+    if clock:
+        part = part[6:]
     st, sc, ms, oracle = part.split('_')
     tier = os.environ.get('VERIF_TIER_REPLAY', 'quick')
     b = bounds(tier)
     V = len(SC.KEYS[sc]) if oracle == 'req' else b['V']
+    if clock and oracle != 'req':
+        V = V - 1
     try:
-        r, _ = two_runs(cex['bits'], st, sc, ms, oracle, V, b['S'],
-                        norm_fresh=not raw)
+        r, _ = two_runs(cex['bits'], st, sc, ms, oracle, V,
+                        b['S'] + (1 if clock else 0), norm_fresh=not raw,
+                        clock=clock)
     except Exception as e:
         return f'{type(e).__name__}: {e}'
     return None if r in (None, 'skip') else r
